@@ -3,4 +3,5 @@ CONSTANTS
   Tier = "thorough"
 INVARIANT BasicIndexTotal
 INVARIANT TransposeIsPermutation
+INVARIANT ConcatIsPartition
 CHECK_DEADLOCK FALSE
